@@ -110,7 +110,15 @@ def oracle(parts, outcome, obs):
             got = rows.get(icao, {})
             if df == 11 or (df == 17 and opts.get("U") == "1" and not first):
                 cap[icao] = getbits(v, nb, 6, 8)
-            if df == 17 and 1 <= getbits(v, nb, 33, 37) <= 4:
+            ident = df in (17, 18) and 1 <= getbits(v, nb, 33, 37) <= 4
+            if not ident and not first and icao in wcat and got.get("cat") != wcat[icao]:
+                return "emitter category changed to %s by a DF%d frame that is not an identification squitter" % (got.get("cat"), df)
+            if "cat" in got:
+                wcat[icao] = got["cat"]
+            if df == 18 and opts.get("U") == "1" and not first and 1 <= getbits(v, nb, 33, 37) <= 4:
+                # with -U a DF18 message is decoded like a DF17 one (the property names DF17 only: not judged)
+                want[icao] = got.get("ais", "-")
+            elif df == 17 and 1 <= getbits(v, nb, 33, 37) <= 4:
                 cs = "".join(ia5(getbits(v, nb, 41 + 6 * i, 46 + 6 * i)) for i in range(8))
                 if got.get("ais") != '"%s"' % cs:
                     return "TC%d callsign %s expected \"%s\"" % (getbits(v, nb, 33, 37), got.get("ais"), cs)
